@@ -651,7 +651,7 @@ public:
 
 
   /// Value of Pi
-  static constexpr double Pi() { return 3.14159265358979; }
+  static constexpr double Pi() { return 3.14159265358979323846; }
 
   /// Infinity
   static constexpr double Infty() { return INFINITY; }
